@@ -299,6 +299,61 @@ func propC16(w *World, r *Report) {
 		}
 	}
 	r.Check(n >= 1 && nParse >= 1, "G4", "frame write sites in MotionProcessor (the live path's parser call among them)", "-", fmt.Sprintf("%d sites, %d parser", n, nParse))
+	// ... and that is the only way the processor writes a frame: a frame handed to one of its methods is a slot of the
+	// pre-trigger ring - once the ring has moved on it is the slot CopyRecent copies under the lock, and a plain store
+	// into it (a status field stamped, a pixel patched) races with the snapshot and alters what it returns
+	nFr := 0
+	var ms []*ssa.Function
+	for fn := range w.AllFuncs {
+		if rv := fn.Signature.Recv(); rv != nil && isPtrTo(rv.Type(), c.T) && len(fn.Blocks) > 0 {
+			ms = append(ms, fn)
+		}
+	}
+	sort.Slice(ms, func(i, j int) bool { return ms[i].String() < ms[j].String() })
+	for _, fn := range ms {
+		for pi, p := range fn.Params {
+			if pi == 0 || !typeIs(p.Type(), "github.com/TheCacophonyProject/go-cptv/cptvframe", "Frame") {
+				continue
+			}
+			nFr++
+			var bad ssa.Instruction
+			for _, b := range fn.Blocks {
+				for _, in := range b.Instrs {
+					st, ok := in.(*ssa.Store)
+					if !ok {
+						continue
+					}
+					root := st.Addr
+					for i := 0; i < 8; i++ {
+						switch x := root.(type) {
+						case *ssa.FieldAddr:
+							root = x.X
+							continue
+						case *ssa.IndexAddr:
+							root = x.X
+							continue
+						case *ssa.UnOp:
+							if x.Op == token.MUL {
+								root = x.X
+								continue
+							}
+						}
+						break
+					}
+					if root == ssa.Value(p) {
+						bad = in
+					}
+				}
+			}
+			name := fn.Name() + ": the frame parameter " + p.Name() + " (a ring slot) is never stored into"
+			if bad != nil {
+				r.Fail("R3", name, w.InstrPos(bad), "a store into a frame the processor was handed: after the ring has advanced this is the slot a concurrent snapshot copies", "")
+			} else {
+				r.Pass("R3", name, w.Pos(fn.Pos()), "")
+			}
+		}
+	}
+	r.Check(nFr >= 3, "G4", "processor methods that are handed a frame", "-", fmt.Sprint(nFr))
 }
 
 // checkLockPairing: every acquisition of a mutex in the recorder daemon and in the motion package is released on every
@@ -316,10 +371,12 @@ func checkLockPairing(w *World, r *Report, rule string) {
 			continue
 		}
 		has := false
+		locksHere := map[string]bool{}
 		for _, b := range fn.Blocks {
 			for _, in := range b.Instrs {
 				if c, ok := in.(*ssa.Call); ok && (isMutexOp(c.Call.StaticCallee(), "Lock") || isMutexOp(c.Call.StaticCallee(), "RLock")) {
 					has = true
+					locksHere[lsLockName(c.Call.Args[0], "")] = true
 				}
 			}
 		}
@@ -395,7 +452,11 @@ func checkLockPairing(w *World, r *Report, rule string) {
 							cur[l] = true
 							nLock++
 						case isMutexOp(c, "Unlock") || isMutexOp(c, "RUnlock"):
-							delete(cur, lsLockName(x.Call.Args[0], ""))
+							l := lsLockName(x.Call.Args[0], "")
+							if !cur[l] && locksHere[l] {
+								finds = append(finds, finding{w.InstrPos(x), "releases " + l + " where it cannot be held (a second Unlock: the runtime aborts the daemon)"})
+							}
+							delete(cur, l)
 						default:
 							for _, l := range alwaysUnlocks(w, c) {
 								delete(cur, l) // a helper every path of which releases the mutex
